@@ -427,7 +427,7 @@ pub fn check_content(c: &mut Case, name: &str, m: &RefArchive, nvariants: usize)
 
 pub fn run(cx: &mut Ctx) {
     cx.require(REQUIRED);
-    cx.rule = "cases = directed contents (both endiannesses) + random contents from the C01 domain; each content is built through the public API in a random call order, serialized, checked by the strict reference reader and re-parsed by the library, then K conforming variant layouts written by the reference writer are fed to the parser. non-trivial = content with >=2 annotation kinds and >=1 label; distinct by hash of (content) and of (content, variant image)".into();
+    cx.rule = "cases = directed contents (both endiannesses) + random contents from the C01 domain; each content is built through the public API in a random call order, serialized, checked by the strict reference reader and re-parsed by the library, then K conforming variant layouts written by the reference writer are fed to the parser. non-trivial = content with >=2 annotation kinds and >=1 label; threshold contents: pointer tables of 127..5000 entries, label tables of 127..70000 entries, text sections beyond 64 KiB with late strings referenced again; long Shift-JIS strings around 64/128/256/4096 encoded bytes; every third build also issues calls that must be rejected; distinct by hash of (content) and of (content, variant image)".into();
     let kq = 4;
     let kt = 16;
     let k = if cx.a.quick() { kq } else { kt };
